@@ -9,7 +9,7 @@ import (
 func init() { register("C17", checkC17) }
 
 var c17PathClasses = [][2]string{
-	{"plain", "f.txt"}, {"blank", "a b.txt"}, {"two-blanks", "a  b c.txt"}, {"subdir", "sub/f.txt"}, {"subdir-blank", "sub dir/f g.txt"}, {"dash", "-f.txt"}, {"dash-n", "-n"},
+	{"plain", "f.txt"}, {"dash-only", "-"}, {"double-dash", "--"}, {"dash-help", "--help"}, {"dash-e", "-e"}, {"dash-in-dir", "sub/-"}, {"blank", "a b.txt"}, {"two-blanks", "a  b c.txt"}, {"subdir", "sub/f.txt"}, {"subdir-blank", "sub dir/f g.txt"}, {"dash", "-f.txt"}, {"dash-n", "-n"},
 	{"semicolon", "a;b"}, {"amp", "a&b"}, {"gt", "a>b"}, {"lt", "a<b"}, {"pipe", "a|b"}, {"star", "a*b"}, {"question", "a?b"}, {"brackets", "a[1]"}, {"braces", "{a,b}"},
 	{"dollar", "$x"}, {"cmdsubst", "$(touch CANARY_P)"}, {"backtick", "`touch CANARY_Q`"}, {"single-quote", "it's"}, {"double-quote", "a\"b"}, {"backslash", "a\\b"}, {"tab", "a\tb"}, {"hash", "#x"}, {"tilde", "~x"},
 	{"bang", "!x"}, {"unicode", "é ü.txt"}, {"dot-slash", "./f.txt"}, {"lead-blank", " lead"}, {"trail-blank", "trail "}, {"paren", "a(b)"}, {"equals", "a=b"}, {"percent", "%s%d"},
@@ -180,12 +180,25 @@ func checkC17(c *Check) {
 			"data-reads-target":     {Write{Path: sl("out.txt"), Data: sl("v1")}, Write{Path: sl("out.txt"), Data: bin("+", call("peek", sl("out.txt")), sl("+"))}, pr(framed(Read{sl("out.txt")}))},
 			"read-path-writes":      {Write{Path: sl("out 3.txt"), Data: sl("three")}, pr(framed(Read{call("pathOf", il(3))})), pr(framed(Read{sl("marker.txt")}))},
 			"exists-path-writes":    {pr(Exists{call("pathOf", il(4))}), Write{Path: sl("out 4.txt"), Data: sl("four")}, pr(Exists{call("pathOf", il(4))}), pr(framed(Read{sl("marker.txt")}))},
+			// an operation on a path stands in the same statement as a call that creates / changes that path later
+			// in the statement: each operand shows the state at its own place
+			"exists-before-create-in-statement": {fn("create", []Param{{"p", TString}}, []Type{TBool}, Write{Path: vr("p"), Data: sl("made")}, ret(bl(true))), fn("show3", []Param{{"a", TBool}, {"b", TBool}, {"c", TBool}}, nil, pr(vr("a"), vr("b"), vr("c"))), callS("show3", Exists{sl("late.txt")}, call("create", sl("late.txt")), Exists{sl("late.txt")}), pr(Exists{sl("late 2.txt")}, call("create", sl("late 2.txt")), Exists{sl("late 2.txt")}), def("both", logic("&&", Exists{sl("late 3.txt")}, call("create", sl("late 3.txt")))), pr(vr("both"), Exists{sl("late 3.txt")})},
+			"read-before-change-in-statement":  {fn("change", []Param{{"p", TString}}, []Type{TString}, Write{Path: vr("p"), Data: sl("new")}, ret(sl("changed"))), Write{Path: sl("doc.txt"), Data: sl("old")}, pr(framed(Read{sl("doc.txt")}), call("change", sl("doc.txt")), framed(Read{sl("doc.txt")})), def("joined", bin("+", bin("+", Read{sl("doc.txt")}, call("change", sl("doc.txt"))), Read{sl("doc.txt")})), pr(vr("joined"))},
 			"sequence-of-nested":    {Write{Path: sl("one.txt"), Data: call("logged", sl("p"))}, Write{Path: sl("two.txt"), Data: call("logged", sl("q"))}, Write{Path: sl("one.txt"), Data: call("logged", sl("r")), Append: bl(true)}, pr(framed(Read{sl("one.txt")}), framed(Read{sl("two.txt")}), framed(Read{sl("log file.txt")}))},
 		}
 		for _, k := range sortedStmtKeys(nested) {
+			// function definitions of a case stay at top level, the rest of its statements move into run()
+			funcs, rest := []Stmt{}, []Stmt{}
+			for _, st := range nested[k] {
+				if _, isFn := st.(FuncDecl); isFn {
+					funcs = append(funcs, st)
+				} else {
+					rest = append(rest, st)
+				}
+			}
 			top := append(append([]Stmt{}, prelude...), nested[k]...)
 			add(BashCase{Key: "nested/" + k + "/top", Prog: SingleFile(append(top, pr(sl("done")))), CheckFS: true}, true)
-			inFn := append(append([]Stmt{}, prelude...), fn("run", nil, nil, nested[k]...), callS("run"), pr(sl("done")))
+			inFn := append(append(append([]Stmt{}, prelude...), funcs...), fn("run", nil, nil, rest...), callS("run"), pr(sl("done")))
 			add(BashCase{Key: "nested/" + k + "/func", Prog: SingleFile(inFn), CheckFS: true}, true)
 		}
 	}
